@@ -279,7 +279,7 @@ def run_kani(harnesses, jobs=None, timeout_s=None):
         env['CARGO_TARGET_DIR'] = os.path.join(CACHE, 'kani-target-alt')
     base_cmd = ['cargo', 'kani', '-Z', 'function-contracts', '-Z', 'stubbing', '-Z', 'concrete-playback', '--concrete-playback=print']
     # one build, then one cargo-kani process per harness in parallel (regular output keeps the per-check details)
-    bp = subprocess.run(['cargo', 'kani', '--only-codegen'], cwd=kdir, env=env, capture_output=True, text=True)
+    bp = subprocess.run(['cargo', 'kani', '--only-codegen', '-Z', 'function-contracts', '-Z', 'stubbing'], cwd=kdir, env=env, capture_output=True, text=True)
     if bp.returncode != 0:
         for h in todo:
             results[h['name']] = {'status': 'build_failed', 'checks': 0, 'failed_checks': [], 'raw_tail': (bp.stdout + bp.stderr)[-3000:]}
